@@ -80,7 +80,12 @@ func isNilPtr(p interface{}) bool {
 
 // readAll runs successive ReadPDU calls until EOF / truncation / panic (at most max calls).
 func readAll(data []byte, sched []int, max int) []readObs {
-	c := &chunkReader{data: data, sched: sched}
+	return readAllAttr(data, sched, max, false, 0)
+}
+
+// readAllAttr: the same over a transport that returns the last octets together with io.EOF and / or returns 0, nil now and then.
+func readAllAttr(data []byte, sched []int, max int, eofWithData bool, zeroEvery int) []readObs {
+	c := &chunkReader{data: data, sched: sched, eofWithData: eofWithData, zeroEvery: zeroEvery}
 	var out []readObs
 	for i := 0; i < max; i++ {
 		o := readOnce(c)
